@@ -10,6 +10,9 @@ import (
 	"strings"
 	"testing"
 
+	"encoding/binary"
+
+	"github.com/massnetorg/mass-core/consensus"
 	"github.com/massnetorg/mass-core/massutil"
 	"github.com/massnetorg/mass-core/wire"
 	"massnet.org/mass-wallet/config"
@@ -235,9 +238,36 @@ func (w *World) actMempool(t *rapid.T) {
 	}
 	kind := rapid.SampledFrom(kinds).Draw(t, "mempoolKind")
 	var tx *wire.MsgTx
+	curValue, curBindingIn := int64(0), false
 	walletDest := func() []byte {
 		m := w.wallets[rapid.IntRange(0, len(w.wallets)-1).Draw(t, "mpWallet")]
-		return sim.StdScript(m.issued[rapid.IntRange(0, len(m.issued)-1).Draw(t, "mpAddr")].Hash)
+		h := m.issued[rapid.IntRange(0, len(m.issued)-1).Draw(t, "mpAddr")].Hash
+		if w.depositsInMempool && rapid.IntRange(0, 2).Draw(t, "mpDeposit") == 0 {
+			// pending version of a staking / binding deposit
+			if rapid.Bool().Draw(t, "mpStaking") && curValue >= int64(consensus.MinStakingValue) {
+				w.flag("pending-staking-deposit")
+				return sim.StakingScript(h, consensus.MinFrozenPeriod+uint64(rapid.IntRange(0, 3).Draw(t, "mpPeriod")))
+			}
+			if !curBindingIn {
+				w.bindCounter++
+				if next < consensus.MASSIP0002WarmUpHeight {
+					tgt := make([]byte, 20)
+					tgt[0] = 0xb2
+					binary.BigEndian.PutUint64(tgt[12:], w.bindCounter)
+					w.flag("pending-binding-deposit")
+					return sim.BindingScript(h, tgt)
+				}
+				if curValue >= 100000000 {
+					tgt := make([]byte, 22)
+					tgt[0] = 0xb3
+					binary.BigEndian.PutUint64(tgt[12:], w.bindCounter)
+					tgt[21] = 24
+					w.flag("pending-binding-deposit")
+					return sim.BindingScript(h, tgt)
+				}
+			}
+		}
+		return sim.StdScript(h)
 	}
 	build := func(c *Coin, toWallet bool) *wire.MsgTx {
 		x := wire.NewMsgTx()
@@ -247,11 +277,13 @@ func (w *World) actMempool(t *rapid.T) {
 			fee = 0
 		}
 		v := c.Value - fee
+		curValue, curBindingIn = v, c.Class == clsBindingOld || c.Class == clsBindingNew
 		if rapid.Bool().Draw(t, "split") && v > 2 {
 			a := v * int64(rapid.IntRange(1, 9).Draw(t, "mpShare")) / 10
 			if a == 0 {
 				a = 1
 			}
+			curValue = a
 			x.AddTxOut(wire.NewTxOut(a, walletDest()))
 			x.AddTxOut(wire.NewTxOut(v-a, sim.StdScript(w.strangers[rapid.IntRange(0, len(w.strangers)-1).Draw(t, "mpStranger")])))
 		} else if toWallet || rapid.Bool().Draw(t, "mpToWallet") {
